@@ -209,6 +209,19 @@ async def run_script(job):
                     ev("sentwait", s=c["s"])
                 except Exception as e:
                     ev("sentwait", s=c["s"], err=type(e).__name__)
+            elif k == "flood":
+                # many clients that connect and go away without a handshake (port scans, health checks), some with garbage
+                for i in range(c.get("n", 70)):
+                    try:
+                        r0, w0 = await open_conn()
+                        if i % 3 == 1:
+                            w0.write(b"GET / HTTP/1.0\r\n\r\n")
+                            await w0.drain()
+                        w0.close()
+                        await asyncio.wait_for(w0.wait_closed(), BOUND)
+                    except Exception:      # noqa: BLE001
+                        pass
+                await asyncio.sleep(0.1)
             elif k == "cliblank":
                 # the user just hits return at the prompt of the bundled CLI client: nothing happens, the prompt comes back
                 cl = clients.get(c["s"])
